@@ -406,7 +406,9 @@ EventsOK == \A k \in DOMAIN events :
 
 \* C05
 StepBound == nsteps <= MaxSteps + 1
-ResumeBound == nwaits <= MaxResumes
+\* a resume is refused once countWaits() >= MaxResumes and every accepted one adds at most one wait; the wait of the first
+\* sprint is logged whatever the limit, so with MaxResumes = 0 there is one wait and no resume at all
+ResumeBound == nwaits <= (IF MaxResumes = 0 THEN 1 ELSE MaxResumes)
 LimitFails == [][(pc = "loop" /\ nsteps' > MaxSteps) => (runs'[cur].status = "failed")]_vars
 Terminates == []<>(pc = "idle")
 
